@@ -7,10 +7,11 @@ import re
 import sys
 
 for line in open(sys.argv[1]):
-    m = re.match(r"(\S+) flagged=\[(.*)\]", line.strip())
+    m = re.match(r"(\S+) flagged=\[(.*?)\](?: own_rules=(\S*))?", line.strip())
     if not m:
         continue
     ident, flagged = m.group(1), m.group(2).split()
+    own_rules = [r for r in (m.group(3) or "").split(",") if r]
     path = f"/verif/seeded/{ident}/meta.json"
     meta = json.load(open(path))
     prop = meta["breaks_property"]
@@ -20,6 +21,8 @@ for line in open(sys.argv[1]):
     meta["quick_checks_reporting_VIOLATION"] = [f for f in flagged if "(ERR)" not in f]
     meta["quick_checks_ANALYSIS_ERROR"] = [f for f in flagged if "(ERR)" in f]
     meta["detected_by_its_own_property_check"] = prop in meta["quick_checks_reporting_VIOLATION"]
+    if own_rules or "own_check_rules" in meta:
+        meta["own_check_rules"] = own_rules
     with open(path, "w") as handle:
         json.dump(meta, handle, indent=1)
         handle.write("\n")
